@@ -106,6 +106,16 @@ CHECKS = {
         note="states are deep snapshots of every attrs field (arrays by dtype/shape/bytes); QCSchema provenance growth is filtered as documented",
         design="DESIGN.md §2 C15",
     ),
+    "C16": dict(
+        level="model_checking",
+        technique="explicit-state exploration of call histories on real process state (every call, every ordered pair, triples of a sub-pool; fresh-interpreter baseline per call) + preemption-bounded (<=2) exhaustive "
+        "thread-schedule exploration with a hand-written scheduler (sys.settrace + semaphore baton)",
+        text="65 API calls (every format's load/dump/write_input on corpus or generated data, failing calls, ghost atoms): each history starts from the initial interpreter state in a forked child; every step's result must equal the "
+        "call alone in a fresh interpreter and the snapshot of all module-level tables and the warnings machinery must remain the initial state (1 state, self-loops only). Threads: all schedules with <=2 preemptions of pairs "
+        "(thorough: 15 pairs + 2 triples) of 6 cheap calls, scheduling points at every line of the API wrapper and of catch_warnings.__enter__/__exit__.",
+        note="thread results compared with the same calls run alone; harness records warnings through one process-wide hook (no catch_warnings in threads); executions capped at 3000/60000 per group (cap recorded)",
+        design="DESIGN.md §2 C16",
+    ),
     "C17": dict(
         level="exploration",
         technique="exhaustive enumeration of (file name x operation x explicit format) on the real selector and through the public API with recording stubs and a file-system audit hook",
